@@ -204,27 +204,25 @@ def s4(ck, an, pm):
         want = fa.sym.ev(ast.parse(text, mode="eval").body, at)
         ck.check(got == want, "LIN", "S4.formula", f.short, f.loc, f"{m} = {text}", f"{m} returns {got.key()[:200]}; its definition is {want.key()[:200]}", construct=m,
                  witness=[f"got      {got.key()[:300]}", f"expected {want.key()[:300]}"])
+    from sa.forward import Forward
+
+    def value_and_spec(fa_, text):
+        """(the value the function returns, folded over its returns; the specification evaluated by the same interpreter)"""
+        got = function_value(fa_)
+        fe_ = Forward(an, fa_, call_effects=False)
+        return got, fe_.ev(ast.parse(text, mode="eval").body)
     fp = an.fa("PandasMetrics._parse_rate")
     rate = fp.f.params[1]
-    ok = False
-    for s in all_stmts(fp):
-        if isinstance(s, ast.Assign) and ast.unparse(s.value) == f"{rate}.squeeze().cagr()":
-            sg = fp.syntactic_guards(s)
-            ok = len(sg) == 1 and sg[0][0] == "truthy" and sg[0][2] and "isinstance" in sg[0][1] and "NDFrame" in sg[0][1]
-    ck.check(ok, "LIN", "S4.rate-of-a-series-is-its-cagr", fp.f.short, fp.f.loc, "a risk-free / benchmark series is reduced to its CAGR; a number is used as is", "_parse_rate no longer maps a series to its CAGR",
-             construct="if isinstance(rate, NDFrame): rate = rate.squeeze().cagr()")
+    got, want = value_and_spec(fp, f"{rate}.squeeze().cagr() if isinstance({rate}, NDFrame) else {rate}")
+    ck.check(got is not None and got == want, "LIN", "S4.rate-of-a-series-is-its-cagr", fp.f.short, fp.f.loc, "a risk-free / benchmark series is reduced to its CAGR; a number is used as is",
+             f"_parse_rate returns {got.key()[:200] if got is not None else 'nothing on some path'}; specified {want.key()[:200]}", construct="if isinstance(rate, NDFrame): rate = rate.squeeze().cagr()")
     fl = an.fa("PandasMetrics.level")
-    rets = [ast.unparse(r.value) for r in returns_in(fl)]
-    ck.check(rets == ["self"], "ARGFLOW", "S4.level-returns-self", fl.f.short, fl.f.loc, "level returns the (validated, per-day collapsed) series", f"level returns {rets}", construct="return self")
-    coll = [s for s in all_stmts(fl) if isinstance(s, ast.Assign) and ast.unparse(s.targets[0]) == "self"]
-    for st_ in coll:
-        sg = fl.syntactic_guards(st_)
-        at = fl.node_of(st_).id
-        want = fl.sym.cmp(ast.parse("len(np.unique(self.index.date)) != len(self.index.date)", mode="eval").body, at)
-        ck.check(len(sg) == 1 and cmp_key(sg[0]) == cmp_key(cmp_strip_nan(want)), "GUARD", "S4.collapse-iff-duplicate-dates", fl.f.short, fl.loc(st_),
-                 "the per-day collapse happens exactly when some calendar date occurs more than once",
-                 f"the per-day collapse is conditioned on {[cmp_key(p) for p in sg]} instead of `number of distinct dates != number of observations`", construct=stmt_text(st_))
-    ck.check(len(coll) == 1, "PATHCOUNT", "S4.collapse-present", fl.f.short, fl.f.loc, "level() collapses several observations per day", f"{len(coll)} collapse statements", construct="self = self.groupby(...).last()")
-    ok = all(ast.unparse(s.value) == "self.groupby(by=self.index.date).last()" for s in coll)
-    ck.check(ok, "ARGFLOW", "S4.intraday-collapse-last", fl.f.short, fl.f.loc, "several observations per day collapse to the last one of the day", f"level collapses with {[ast.unparse(s.value) for s in coll]}",
-             construct="self = self.groupby(by=self.index.date).last()")
+    got, want = value_and_spec(fl, "self.groupby(by=self.index.date).last() if len(np.unique(self.index.date)) != len(self.index.date) else self")
+    ok_level = got is not None and got == want
+    ck.check(ok_level, "GUARD", "S4.collapse-iff-duplicate-dates", fl.f.short, fl.f.loc,
+             "level returns the series itself, collapsed to the last observation of each day exactly when some calendar date occurs more than once",
+             f"level returns {got.key()[:260] if got is not None else 'nothing on some path'}; specified {want.key()[:260]}", construct="if len(np.unique(self.index.date)) != len(self.index.date): self = self.groupby(by=self.index.date).last()")
+    ck.check(got is not None and "self" in got.key(), "ARGFLOW", "S4.level-returns-self", fl.f.short, fl.f.loc, "level returns the (validated, per-day collapsed) series", f"level returns {got.key()[:120] if got is not None else '?'}", construct="return self")
+    ck.check(got is not None and ".groupby(" in got.key(), "PATHCOUNT", "S4.collapse-present", fl.f.short, fl.f.loc, "level() collapses several observations per day", "no per-day collapse in level()", construct="self = self.groupby(...).last()")
+    ck.check(got is not None and "self.groupby(by=self.index.date).last()" in got.key(), "ARGFLOW", "S4.intraday-collapse-last", fl.f.short, fl.f.loc, "several observations per day collapse to the last one of the day",
+             f"level collapses with {got.key()[:160] if got is not None else '?'}", construct="self = self.groupby(by=self.index.date).last()")
